@@ -9,7 +9,7 @@ cd $W || exit 2
 git checkout -q --detach $(git -C /repo rev-parse HEAD) 2>>$LOG; git checkout -- . ; git clean -fdq -e target
 PATCH=/verif/seeded/$ID/patch.diff
 git apply --check $PATCH 2>>$LOG || { echo "RESULT $ID PATCH-DOES-NOT-APPLY" | tee -a $LOG; exit 1; }
-failed_set() { grep -E "^test .* \.\.\. FAILED|^test result: FAILED|error: test failed|error\[|^error:" "$1" | grep -E "^test .* FAILED" | sort -u; }
+failed_set() { grep -E "^test .* \.\.\. FAILED" "$1" | sort -u; }
 HEADREV=$(git rev-parse --short HEAD)
 BASE=/tmp/confirm_logs/baseline_${PKG}.txt
 if [ ! -f $BASE ]; then
